@@ -278,3 +278,9 @@ func VerifH_C13_GnetFreshConnection() {
 	vCheckResponse(bodies[0], 0x2222, 'b', true)
 	e.OnClose(b, nil)
 }
+
+// VerifH_C01_GnetConnectionsAreIndependent: "input that cannot be decoded is rejected … and later valid queries are still
+// answered": what one connection leaves behind (a frame cut short by a disconnect, a lying length prefix) must not
+// wedge the NEXT connection of the listener (scenario of C13_GnetFreshConnection, registered under the malformed-input
+// property as well).
+func VerifH_C01_GnetConnectionsAreIndependent() { VerifH_C13_GnetFreshConnection() }
